@@ -86,13 +86,16 @@ func runC08(r *R) {
 		case 12, 13:
 			s.line, s.kind = []string{"FETCH ", "UID FETCH "}[t.Choose(2)]+set+[]string{" (UID FLAGS)", " (FLAGS)", " (UID BODY.PEEK[HEADER])", " (UID BODY[TEXT])"}[t.Choose(4)], "fetch"
 		case 14, 15:
-			s.line, s.kind = []string{"SEARCH ", "UID SEARCH "}[t.Choose(2)]+[]string{"ALL", "DELETED", set, "UID " + set, "NOT DELETED", "RETURN (MIN MAX COUNT ALL) ALL"}[t.Choose(6)], "search"
+			s.line, s.kind = []string{"SEARCH ", "UID SEARCH "}[t.Choose(2)]+[]string{"ALL", "DELETED", set, "UID " + set, "NOT DELETED", "RETURN (MIN MAX COUNT ALL) ALL", []string{"1", "2", "3", "2:3", "1:2", "1,3", "4", "2:4"}[t.Choose(8)], "1:3"}[t.Choose(8)], "search"
 		case 16, 17:
 			s.line, s.kind = "NOOP", "noop"
 		case 18:
 			s.line, s.kind, s.idle = "IDLE", "idle", time.Duration(1+t.Choose(3))*time.Second
 		default:
 			s.line, s.kind = []string{"CLOSE", "UNSELECT"}[t.Choose(2)], "close"
+		}
+		if t.Choose(4) == 0 {
+			s.line = c08caseCmd(s.line, t.Choose(2)) // command names are case-insensitive
 		}
 		if overlap && t.Choose(2) == 0 {
 			s.pair = true
@@ -277,7 +280,7 @@ func runC08(r *R) {
 func c08Observe(r *R, s *c08sess, o *cmdOutcome, kind, line, where string) bool {
 	v := s.v
 	p := s.p
-	isUID := strings.HasPrefix(line, "UID ")
+	isUID := strings.HasPrefix(strings.ToUpper(line), "UID ")
 	noExpunge := !isUID && (kind == "fetch" || kind == "store" || kind == "search")
 	bad := func(oracle, class, format string, args ...interface{}) bool {
 		r.Violate(oracle, class, where+": "+format, args...)
@@ -358,6 +361,23 @@ func c08Observe(r *R, s *c08sess, o *cmdOutcome, kind, line, where string) bool 
 				if n == 0 || int(n) > v.count {
 					return bad("seqnum-out-of-range", "SEARCH", "SEARCH result %d but the announced message count is %d", n, v.count)
 				}
+				// a search whose only key is a sequence set can only return members of that set, read in this connection's view
+				if in, ok := c08keySet(line, v.count); ok && !in(uint32(n)) {
+					return bad("search-outside-key-set", "SEARCH", "the search key is the sequence set of %q, read against the %d messages announced on this connection, but the result contains %d", line, v.count, n)
+				}
+			}
+		case rp.Name == "SEARCH" && isUID:
+			in, ok := c08keySet(line, v.count)
+			for _, tk := range rp.Toks {
+				u, err := strconv.ParseUint(tk.S, 10, 32)
+				if tk.Kind != 'a' || err != nil || !ok {
+					continue
+				}
+				for j, x := range v.uids {
+					if x == uint32(u) && !in(uint32(j+1)) {
+						return bad("search-outside-key-set", "UID SEARCH", "the search key is the sequence set of %q, but the result contains UID %d, which this connection knows as sequence number %d of %d", line, u, j+1, v.count)
+					}
+				}
 			}
 		case rp.Name == "ESEARCH" && !isUID:
 			for i := 0; i+1 < len(rp.Toks); i++ {
@@ -409,6 +429,71 @@ func c08dump(p *rawPeer, from int) string {
 		s = append(s, clipStr(string(p.resps[i].Line.Raw), 80))
 	}
 	return strings.Join(s, " | ")
+}
+
+// c08keySet: for "SEARCH <set>" / "UID SEARCH <set>" (the whole search program is one sequence set) the membership
+// test of that set.
+func c08keySet(line string, count int) (func(uint32) bool, bool) {
+	f := strings.Fields(line)
+	if len(f) > 0 && strings.EqualFold(f[0], "UID") {
+		f = f[1:]
+	}
+	if len(f) > 0 {
+		f[0] = strings.ToUpper(f[0])
+	}
+	// ('*' is left out: whether it names the last message of a stale view or of the mailbox is not settled by the property)
+	if len(f) != 2 || f[0] != "SEARCH" || f[1] == "" || !strings.ContainsAny(f[1][:1], "0123456789") || strings.Contains(f[1], "*") {
+		return nil, false
+	}
+	type rg struct{ lo, hi uint32 }
+	var rgs []rg
+	for _, part := range strings.Split(f[1], ",") {
+		a, b := part, part
+		if i := strings.IndexByte(part, ':'); i >= 0 {
+			a, b = part[:i], part[i+1:]
+		}
+		num := func(x string) (uint32, bool) {
+			if x == "*" {
+				return uint32(count), true
+			}
+			n, err := strconv.ParseUint(x, 10, 32)
+			return uint32(n), err == nil
+		}
+		lo, ok1 := num(a)
+		hi, ok2 := num(b)
+		if !ok1 || !ok2 {
+			return nil, false
+		}
+		if lo > hi {
+			lo, hi = hi, lo
+		}
+		rgs = append(rgs, rg{lo, hi})
+	}
+	return func(n uint32) bool {
+		for _, r := range rgs {
+			if n >= r.lo && n <= r.hi {
+				return true
+			}
+		}
+		return false
+	}, true
+}
+
+// c08caseCmd rewrites the command name (and the UID prefix) in lower case (mode 0) or with an initial capital (mode 1).
+func c08caseCmd(line string, mode int) string {
+	f := strings.SplitN(line, " ", 3)
+	n := 1
+	if strings.EqualFold(f[0], "UID") && len(f) > 1 {
+		n = 2
+	}
+	for i := 0; i < n && i < len(f); i++ {
+		w := strings.ToLower(f[i])
+		if mode == 1 && w != "" {
+			w = strings.ToUpper(w[:1]) + w[1:]
+		}
+		f[i] = w
+	}
+	return strings.Join(f, " ")
 }
 
 func imapParseSeq(s string) (imap.SeqSet, error) {
